@@ -344,3 +344,21 @@ Definition result_shape (t : tables) (r : result) : J :=
        JL (map (fun x => let '(s, u, mp) := x in jz_list [Z.of_nat s; Z.of_nat u; mp]) (t_muts t'));
        JL (map jz_list (t_inds t'));
        JZ (Z.of_nat (t_npops t')) ].
+
+(* simplify the result again w.r.t. the images of the chosen samples, same options *)
+Definition second_pass (t : tables) (smp : list nat) (o : opts) : tables * result :=
+  let r1 := simplify_spec t smp o in
+  let t1 := result_tables t r1 in
+  (t1, simplify_spec t1 (result_samples r1 smp) o).
+
+Definition spec_idempotent_on (t : tables) (smp : list nat) (o : opts) : bool :=
+  let r1 := simplify_spec t smp o in
+  let '(t1, r2) := second_pass t smp o in
+  J_eqb (result_shape t r1) (result_shape t1 r2).
+
+(* an output node that is neither a chosen sample nor referenced by an output edge *)
+Definition unreferenced_nodes (r : result) (smp : list nat) : list nat :=
+  flat_map (fun x => let '(u, _, _, _) := x in
+     let v := nth u (r_node_map r) (-1)%Z in
+     if mem u smp || existsb (fun e => let '(_, _, p, c) := e in (p =? v)%Z || (c =? v)%Z) (r_edges r)
+     then [] else [u]) (r_nodes r).
